@@ -181,6 +181,50 @@ func c11Case(c *core.Ctx, idx int) {
 			}
 		}
 
+		// --- damaged input: whatever Unmarshal returns, what it left in the target owns its memory ---
+		if len(data) > 1 {
+			for k := 0; k < 3; k++ {
+				bad := damage(rv, data)
+				gb, err := mon.NewGuard(bad)
+				if err != nil {
+					break
+				}
+				tb := reflect.New(tc.typ)
+				var berr error
+				fault := mon.Faulting(func() { berr = tc.p.Unmarshal(gb.Data, tb.Interface()) })
+				rec.Eval(1)
+				bLo, bHi := gb.Range()
+				var brefs []mon.Ref
+				if fault == "" {
+					mon.Refs(tb.Elem(), "$", &brefs, 0)
+				}
+				gb.Free()
+				if fault != "" {
+					continue // a decoder that faults on damaged input is C04's finding
+				}
+				outcome := "was rejected"
+				if berr == nil {
+					outcome = "was accepted"
+				}
+				for _, r := range brefs {
+					if overlaps(bLo, bHi, r.Lo, r.Hi) {
+						rec.Violation("decoded-aliases-input", fmt.Sprintf("a damaged input %s (%v) and left %s of the target pointing into the input buffer %s\n  damaged bytes %s", outcome, berr, r.Path, desc(), hexHead(bad)), caseExtra(tc, v, bad))
+						return
+					}
+				}
+				fault = mon.Faulting(func() {
+					_ = model.Show(tb.Elem())
+					_, _ = model.ShapeHash(tb.Elem())
+					probeMaps(tb.Elem(), 0)
+				})
+				if fault != "" {
+					rec.Violation("decoded-aliases-input", fmt.Sprintf("a damaged input %s (%v); reading what it left in the target after the input buffer was unmapped faulted: %s %s\n  damaged bytes %s", outcome, berr, fault, desc(), hexHead(bad)), caseExtra(tc, v, bad))
+					return
+				}
+				rec.Count("targets_of_damaged_inputs_probed", 1)
+			}
+		}
+
 		// --- heap input, overwritten and re-used afterwards ---
 		in := append([]byte(nil), data...)
 		t2 := reflect.New(tc.typ)
